@@ -475,6 +475,12 @@ func Instantiate(v Value, model map[string]string) (string, error) {
 				return "", err
 			}
 			sb.WriteString(string(rune(n)))
+		case PCode:
+			n, err := evalIntTerm(p.Lit, model)
+			if err != nil {
+				return "", err
+			}
+			sb.WriteString(NameOfCode(n))
 		}
 	}
 	return sb.String(), nil
@@ -541,3 +547,6 @@ func evalIntTerm(t string, model map[string]string) (int64, error) {
 
 // EvalInt evaluates an Int term under a model.
 func EvalInt(t string, model map[string]string) (int64, error) { return evalIntTerm(t, model) }
+
+// MkStruct builds a struct value from its fields in declaration order.
+func MkStruct(fields ...Value) Value { return structure(append([]value{}, fields...)) }
